@@ -1,7 +1,7 @@
 (* Properties_C19.v -- C19: diff and staged modes check exactly what git says changed.
    Property theorems only; each is closed by [exact <lemma>] and followed by Print Assumptions.
    The model is Git/TreeDiff.v (git/diff.rs, commands/check/check_git_diff.rs, check_scan.rs) AFTER
-   the repairs fixes/D21, D22, D32, D33, D34, D70, D71; the lemmas are in Git/Proofs_C19.v.
+   the repairs fixes/D21, D22, D32, D33, D34, D70, D71, D105; the lemmas are in Git/Proofs_C19.v.
 
    Reading guide.  A commit tree is a [gentry]; [blob_at t p] is the regular file at path p as git
    records it: (executable bit, content); None for directories, symbolic links, submodules, nothing.
@@ -115,6 +115,18 @@ Theorem C19_staged_exact : forall canon head idx files,
 Proof. exact staged_files_exact. Qed.
 Print Assumptions C19_staged_exact.
 
+(* check --diff / --staged together with --files L (fix D105): a listed file is evaluated iff it is
+   evaluated by --files L alone AND it is a member of the changed / staged set (compared by canonical
+   path, members behind symbolic links dropped as in C19_filter_general); its result is the same.
+   So files outside the set are never reported in this mode either.  [eval] is arbitrary. *)
+Theorem C19_files_list_is_restricted :
+  forall (R : Type) (eval : path -> option R) canon set listed f r,
+    In (f, r) (fst (listed_run R eval canon (Some set) listed)) <->
+    In (f, r) (fst (listed_run R eval canon None listed)) /\
+    In f listed /\ exists c, canon f = Some c /\ In c set /\ canon c = Some c.
+Proof. exact listed_run_spec. Qed.
+Print Assumptions C19_files_list_is_restricted.
+
 (* ------------------------------------------------------------------ non-vacuity and regression witnesses *)
 
 Definition exA : list (name * gentry) :=
@@ -206,3 +218,21 @@ Proof.
   vm_compute. intros [].
 Qed.
 Print Assumptions C19_staged_exact_refuted_before_D22.
+
+(* D105: a.rs is listed with --files, the changed set holds only b.rs; the unrepaired code
+   ([listed_run_v0]) evaluates a.rs, the repaired code does not and keeps b.rs when it is listed *)
+Example C19_files_list_refuted_before_D105 :
+  exists (eval : path -> option N) canon set listed f r,
+    In (f, r) (fst (listed_run_v0 N eval canon (Some set) listed)) /\ ~ In f set.
+Proof.
+  exists (fun _ => Some 1), (fun p => Some p), [[[98]]], [[[97]]], [[97]], 1.
+  split; [vm_compute; left; reflexivity|].
+  intros [H|[]]. discriminate.
+Qed.
+Print Assumptions C19_files_list_refuted_before_D105.
+
+Example C19_files_list_witness :
+  fst (listed_run N (fun _ => Some 1) (fun p => Some p) (Some [[[98]]]) [[[97]]; [[98]]]) = [([[98]], 1)] /\
+  fst (listed_run N (fun _ => Some 1) (fun p => Some p) (Some [[[98]]]) [[[97]]]) = [].
+Proof. split; vm_compute; reflexivity. Qed.
+Print Assumptions C19_files_list_witness.
